@@ -670,6 +670,7 @@ func (p *Program) branchSiblings(fn *types.Func, T *types.Named, a, b string) bo
 func rulesC02(c *Ctx) {
 	slotAgreement(c, "C02", map[string]bool{"coverage": true, "class": true, "keyword": true, "order": true})
 	operandShapeC02(c)
+	binPrintC03(c, "C02.binprint")
 	formattersC02(c)
 	slotsC08(c)
 	// names and strings are printed through the quoting helpers: they must invert the lexer
@@ -686,6 +687,10 @@ func rulesC01(c *Ctx) {
 	// how operators group is part of the AST a text denotes
 	importRules(c, rulesC03, "C03.", "C01.grouping-", nil)
 	escapesC01(c)
+	// a carriage return is a line break, not a character eater: a legal
+	// statement laid out with CR or CRLF must parse
+	crfoldRule(c, "C01.crfold")
+	intWidthC01(c)
 	// duration literals: a legal spelling (decimal digits, any unit of the table,
 	// a total that fits) must not be rejected or misread
 	importRules(c, rulesC08, "C08.", "C01.duration-", func(r string) bool {
